@@ -708,3 +708,148 @@ def newick_family(run, replay):
                           "tokens = Write(D), parser result = Parse(tokens), parsed tree = D and identical second text",
                      assumptions=["numeric values are symbols recognised bit-exactly by the harness (decimal formatting itself is stdlib)",
                                   "tip names that look numeric are not generated by the random driver (the model alphabet covers them)"])
+
+
+# ------------------------------------------------------------------------------------------------
+# C13 (conversions, stream splitter, first vs multi) and C02 (readers are total)
+
+SPLITTER_CFG = """SPECIFICATION Spec
+CONSTANTS
+  MaxLines = %d
+  MaxLen = %d
+  Emit = TRUE
+INVARIANTS NoIndexUnderflow Progress GroupsAreTheChunks EmitDoc
+CHECK_DEADLOCK FALSE
+"""
+
+DOCS_TRACE_CFG = """SPECIFICATION Spec
+CONSTANT PROPS = {%s}
+POSTCONDITION Accepted
+CHECK_DEADLOCK FALSE
+"""
+
+
+def splitter_model(run, prop):
+    import models
+    ml, mlen = (3, 2) if run.tier == "quick" else (4, 2)
+    out = vk.run_model(run, "Splitter", "Splitter.tla", SPLITTER_CFG % (ml, mlen), workers=vk.NCPU, heap="8g")
+    cases_path, n = models.emit_cases(run, prop, [out], name="splitcases")
+    models.replay_cases(run, prop, cases_path, n, "split-replay", "TraceDocs.tla", DOCS_TRACE_CFG % ('"%s"' % prop), per_shard=300)
+    run.extra["splitter_model_bounds"] = dict(max_lines=ml, max_line_length=mlen, alphabet=["x", ";", " "])
+
+
+def sharded(run, driver, prop, ncases, spec, cfg, extra_args=(), tag="rnd", timeout=1800, shards=None):
+    shards = shards or vk.NCPU
+    per = math.ceil(ncases / shards)
+
+    def job(i):
+        def f():
+            path = os.path.join(run.work, "%s-%s-%d.ndjson" % (tag, prop, i))
+            s = vk.run_driver(run, [driver, "--seed", str(run.seed), "--from", str(i * per), "--to", str(min(ncases, (i + 1) * per)),
+                                    "--out", path] + list(extra_args), path, timeout=timeout)
+            r = vk.validate_trace(run, path, spec, cfg)
+            r["summary"] = s
+            return r
+        return f
+    res = vk.parallel([job(i) for i in range(shards)])
+    collect(run, res)
+    run.traces += sum(r["summary"].get("events", 0) for r in res)
+    if res:
+        run.samples += vk.sample_events(res[0]["path"], 1, maxlen=3000)
+    return res
+
+
+@pipeline("C13")
+def conversions_family(run, replay):
+    run.build_harness()
+    cfg = DOCS_TRACE_CFG % '"C13"'
+    if replay:
+        with open(replay) as f:
+            hdr = json.loads(f.readline())
+        run.replay_of = replay
+        p = os.path.join(run.work, "replay.ndjson")
+        if "model_case" in hdr:
+            cp = os.path.join(run.work, "cases-replay.ndjson")
+            with open(cp, "w") as f:
+                f.write(json.dumps(hdr["model_case"]) + "\n")
+            vk.run_driver(run, ["split-replay", "--prop", "C13", "--cases", cp, "--out", p], p)
+        else:
+            parts = hdr.get("case", "").split("-")
+            seed, k = int(parts[1][1:]), int(parts[2][1:])
+            vk.run_driver(run, ["docs", "--seed", str(seed), "--from", str(k), "--to", str(k + 1), "--out", p,
+                                "--maxtips", "20" if hdr.get("tier", "quick") == "quick" else "40"], p)
+        r = vk.validate_trace(run, p, "TraceDocs.tla", cfg)
+        collect(run, [r])
+        run.traces = 1
+        return vk.finish(run, rule="replay of one recorded case on the current /repo")
+    splitter_model(run, "C13")
+    ncases, maxtips = (1600, 20) if run.tier == "quick" else (40000, 40)
+    sharded(run, "docs", "C13", ncases, "TraceDocs.tla", cfg, extra_args=["--maxtips", str(maxtips)])
+    return vk.finish(run,
+                     rule="model: the stream splitter ReadUntilSemiColon / ReadMultiTrees loop as a machine over lines (Splitter.tla): every "
+                          "document of the bound (lines over {other, ';', blank}), invariants no index underflow, progress, groups = the "
+                          "chunks ending at each ';' (nothing skipped or duplicated); every document is fed to the real ReadUntilSemiColon "
+                          "and the groups compared with the model's; real code: random lists of 1-50 trees on shared taxa (legal labels, with "
+                          "and without lengths/supports/p-values, inner names, rooted or not) written as a Newick stream (blank lines, trees "
+                          "spanning lines, no final newline), Nexus with and without translate table, PhyloXML, read back through "
+                          "ReadMultiTrees and ReadTreeReader, converted back to Newick; TLC checks count, consecutive ids, tree equality, "
+                          "first = first of multi; the Newick token machine of C01 covers the per-tree reader",
+                     assumptions=["values are symbols recognised bit-exactly", "one tree per ';'-terminated line group is the splitter's contract",
+                                  "Nextstrain documents (reader only) are exercised by C02's inputs"])
+
+
+@pipeline("C02")
+def readers_family(run, replay):
+    run.build_harness()
+    cfg = DOCS_TRACE_CFG % '"C02"'
+    if replay:
+        with open(replay) as f:
+            hdr = json.loads(f.readline())
+        run.replay_of = replay
+        p = os.path.join(run.work, "replay.ndjson")
+        case = hdr.get("case", "")
+        if "model_case" in hdr and "toks" in hdr["model_case"]:
+            cp = os.path.join(run.work, "cases-replay.ndjson")
+            with open(cp, "w") as f:
+                f.write(json.dumps(hdr["model_case"]) + "\n")
+            vk.run_driver(run, ["nw-replay", "--prop", "C02", "--cases", cp, "--out", p], p)
+            r = vk.validate_trace(run, p, "TraceNewick.tla", NEWICK_TRACE_CFG % '"C02"')
+        elif "model_case" in hdr:
+            cp = os.path.join(run.work, "cases-replay.ndjson")
+            with open(cp, "w") as f:
+                f.write(json.dumps(hdr["model_case"]) + "\n")
+            vk.run_driver(run, ["split-replay", "--prop", "C02", "--cases", cp, "--out", p], p)
+            r = vk.validate_trace(run, p, "TraceDocs.tla", cfg)
+        else:
+            parts = case.split("-")
+            seed, k = int(parts[1][1:]), int(parts[2][1:])
+            vk.run_driver(run, ["readers", "--seed", str(seed), "--from", str(k), "--to", str(k + 1), "--out", p], p)
+            r = vk.validate_trace(run, p, "TraceDocs.tla", cfg)
+        collect(run, [r])
+        run.traces = 1
+        return vk.finish(run, rule="replay of one recorded case on the current /repo")
+    # the Newick parser: every token in every state (text given to the real parser, watchdog, delivered trees used)
+    import models
+    out = vk.run_model(run, "Newick", "Newick.tla", NEWICK_MODEL_CFG % (7 if run.tier == "quick" else 9), workers=vk.NCPU, heap="8g")
+    cases_path, n = models.emit_cases(run, "C02", [out])
+    models.replay_cases(run, "C02", cases_path, n, "nw-replay", "TraceNewick.tla", NEWICK_TRACE_CFG % '"C02"', per_shard=400)
+    splitter_model(run, "C02")
+    ncases = 4800 if run.tier == "quick" else 160000
+    res = sharded(run, "readers", "C02", ncases, "TraceDocs.tla", cfg, timeout=3000)
+    oc = {}
+    for r in res:
+        for k, v in r["summary"].get("outcomes", {}).items():
+            oc[k] = oc.get(k, 0) + v
+    run.extra["reader_outcomes"] = oc
+    return vk.finish(run,
+                     rule="model: the Newick parser fed one token at a time (every token of the alphabet in every state, incl. end of input, "
+                          "unterminated comment, stray bracket, ':' without number) and the stream splitter over every document of the bound - "
+                          "both total by construction and by TLC's invariants; every transition / document is given as bytes to the real "
+                          "readers; real code: valid documents of the five formats (Newick, Newick stream, Nexus with TAXA/CHARACTERS/TREES/"
+                          "TRANSLATE/unknown blocks, PhyloXML, Nextstrain JSON) mutated (truncation, splices of format keywords and "
+                          "metacharacters, deletions, duplications, byte flips, blank-only lines, nesting up to 40000) and read through "
+                          "ReadMultiTrees and ReadTreeReader in an isolated worker process with a watchdog; every delivered tree is "
+                          "traversed, indexed and written; TLC flags crash, hang, unusable delivered tree",
+                     assumptions=["a crash or a hang is re-run alone before being believed", "encoding/xml and encoding/json are not modelled: "
+                                  "for PhyloXML and Nextstrain only crash/hang/usability are judged",
+                                  "after 4 crashes or hangs in a shard the remaining inputs of that shard are not run"])
